@@ -163,6 +163,9 @@ pub struct CheckStats {
     pub samples: Vec<(u64, Value)>,
     pub excluded_known: BTreeMap<&'static str, (u64, String)>,
     pub exhaustive: Option<String>,
+    /// non-trivial cases that are distinct by construction (enumeration indices), counted
+    /// instead of hashed when an enumeration is too large for a hash set
+    pub extra_distinct: u64,
 }
 
 pub struct Violation {
@@ -320,7 +323,7 @@ impl Ctx {
         let mut exhaustive_subspaces: Vec<Value> = Vec::new();
         for (name, st) in &self.stats {
             evaluations += st.evaluations;
-            distinct += st.nontrivial_hashes.len() as u64;
+            distinct += st.nontrivial_hashes.len() as u64 + st.extra_distinct;
             let mut ss = st.samples.clone();
             ss.sort_by_key(|x| x.0);
             for (_, s) in ss.into_iter().take(4) {
@@ -329,7 +332,7 @@ impl Ctx {
             let classes: serde_json::Map<String, Value> = st.classes.iter().map(|(k, v)| (k.to_string(), json!(v))).collect();
             per_check.insert(
                 name.clone(),
-                json!({"evaluations": st.evaluations, "distinct_nontrivial": st.nontrivial_hashes.len(), "discarded": st.discarded, "classes": classes}),
+                json!({"evaluations": st.evaluations, "distinct_nontrivial": st.nontrivial_hashes.len() as u64 + st.extra_distinct, "discarded": st.discarded, "classes": classes}),
             );
             for (k, (n, what)) in &st.excluded_known {
                 excluded.insert(format!("{}:{}", name, k), json!({"count": n, "example": what}));
@@ -398,6 +401,97 @@ struct ShardOut {
 pub static WATCH: Mutex<Vec<Option<(Instant, String, String)>>> = Mutex::new(Vec::new());
 pub static STOP: AtomicBool = AtomicBool::new(false);
 
+// ---- abort reporting: what each shard is working on, readable from a signal handler ----
+pub const SLOT_CAP: usize = 1 << 17;
+pub struct Slot {
+    pub len: std::sync::atomic::AtomicUsize,
+    pub buf: std::cell::UnsafeCell<[u8; SLOT_CAP]>,
+}
+unsafe impl Sync for Slot {}
+#[allow(clippy::declare_interior_mutable_const)]
+const EMPTY_SLOT: Slot = Slot { len: std::sync::atomic::AtomicUsize::new(0), buf: std::cell::UnsafeCell::new([0u8; SLOT_CAP]) };
+pub static SLOTS: [Slot; SHARDS] = [EMPTY_SLOT; SHARDS];
+thread_local! {
+    pub static MY_SHARD: std::cell::Cell<usize> = const { std::cell::Cell::new(usize::MAX) };
+}
+static ABORT_PROPERTY: Mutex<String> = Mutex::new(String::new());
+static ABORT_DIR: std::sync::OnceLock<std::ffi::CString> = std::sync::OnceLock::new();
+
+/// remember the case this shard is about to run as a complete replay file
+pub fn slot_set(shard: usize, property: &str, check: &str, case_json: &str) {
+    MY_SHARD.with(|c| c.set(shard));
+    let txt = format!("{{\"property\":\"{}\",\"check\":\"{}\",\"case\":{},\"note\":\"the process aborted (SIGABRT) while running this case\"}}", property, check, case_json);
+    let b = txt.as_bytes();
+    let slot = &SLOTS[shard % SHARDS];
+    if b.len() <= SLOT_CAP {
+        slot.len.store(0, Ordering::SeqCst);
+        unsafe {
+            std::ptr::copy_nonoverlapping(b.as_ptr(), slot.buf.get() as *mut u8, b.len());
+        }
+        slot.len.store(b.len(), Ordering::SeqCst);
+    } else {
+        slot.len.store(0, Ordering::SeqCst);
+    }
+}
+
+extern "C" fn on_abort(_sig: libc::c_int) {
+    // async-signal-safe calls only: open / write / _exit
+    unsafe {
+        let shard = MY_SHARD.try_with(|c| c.get()).unwrap_or(usize::MAX);
+        let w = |fd: i32, b: &[u8]| {
+            libc::write(fd, b.as_ptr() as *const libc::c_void, b.len());
+        };
+        if shard < SHARDS {
+            let slot = &SLOTS[shard];
+            let n = slot.len.load(Ordering::SeqCst);
+            if n > 0 {
+                if let Some(dir) = ABORT_DIR.get() {
+                    // <root>/findings/C05-abort-<shard>.json
+                    let mut path = [0u8; 512];
+                    let d = dir.as_bytes();
+                    let tail = b"/C05-abort-";
+                    let mut k = 0;
+                    for x in d.iter().chain(tail.iter()) {
+                        if k < 480 {
+                            path[k] = *x;
+                            k += 1;
+                        }
+                    }
+                    path[k] = b'a' + (shard as u8 % 26);
+                    k += 1;
+                    for x in b".json" {
+                        path[k] = *x;
+                        k += 1;
+                    }
+                    path[k] = 0;
+                    let fd = libc::open(path.as_ptr() as *const libc::c_char, libc::O_CREAT | libc::O_WRONLY | libc::O_TRUNC, 0o644);
+                    if fd >= 0 {
+                        w(fd, std::slice::from_raw_parts(slot.buf.get() as *const u8, n));
+                        libc::close(fd);
+                        w(1, b"VIOLATION property=C05 replay=");
+                        w(1, &path[..k]);
+                        w(1, b"\n  the process aborted while running this case (abort, stack overflow or allocation failure)\n");
+                        libc::_exit(1);
+                    }
+                }
+            }
+        }
+        w(1, b"INCONCLUSIVE: the process received SIGABRT outside a running case\n");
+        libc::_exit(2);
+    }
+}
+
+/// C05 only: an abort inside jawk is a violation of "never panics, aborts or loops forever"
+pub fn install_abort_reporter(root: &Path) {
+    let dir = root.join("findings");
+    let _ = std::fs::create_dir_all(&dir);
+    let _ = ABORT_DIR.set(std::ffi::CString::new(dir.to_str().unwrap_or("/tmp")).unwrap());
+    unsafe {
+        libc::signal(libc::SIGABRT, on_abort as *const () as usize);
+    }
+    let _ = &ABORT_PROPERTY;
+}
+
 fn watch_set(shard: usize, v: Option<(Instant, String, String)>) {
     let mut w = WATCH.lock().unwrap();
     if w.len() <= shard {
@@ -435,6 +529,7 @@ pub fn run_check<C: Check>(chk: &C, ctx: &mut Ctx) {
     let tier = ctx.tier;
     let known_keys: Vec<String> = ctx.known.iter().filter(|k| k.property == ctx.property).map(|k| k.key.clone()).collect();
     let seed = ctx.seed;
+    let is_c05 = ctx.property == "C05";
     let failed_any = AtomicBool::new(false);
     let outs: Vec<ShardOut> = std::thread::scope(|s| {
         let mut hs = Vec::new();
@@ -457,6 +552,9 @@ pub fn run_check<C: Check>(chk: &C, ctx: &mut Ctx) {
                                 return Ok(());
                             }
                             let js = serde_json::to_string(&case).unwrap();
+                            if is_c05 {
+                                slot_set(shard, "C05", name, &js);
+                            }
                             watch_set(shard, Some((Instant::now(), name.to_string(), js.clone())));
                             let res = chk.check(&case);
                             watch_set(shard, None);
